@@ -305,6 +305,10 @@ def cut_loop(ip, key, assigned, guard, bind, body, extra=None, lc=None):
     def inv_clauses(k):
         out = []
         if lc is not None and lc.inv is not None:
+            # specs talk about heap lists: promote the frame's concrete lists first (promotion allocates, so it must precede the state view)
+            for lv in list(fr.locals.values()):
+                if isinstance(lv, PList) and not lv.frozen and lv.ref is None:
+                    c.promote(lv)
             r = lc.inv(SV(c.heap0), c.sv(), view(k))
             if isinstance(r, dict):
                 out.extend(r.items())
